@@ -11,7 +11,7 @@
    (doc_sat), under the per-case booleans same_graph / spec_okb / dgraph_ok. *)
 From Coq Require Import List String Ascii Arith.
 From PC Require Import Base.Codes Comp.Syntax Comp.Compile Design.Propagate Design.PropagateProofs Design.Designer Design.DesignerProofs Design.TemplateProofs
-  Design.Contraction Design.DGraph Design.DenoteGraph Design.DenoteTie Design.DenoteSat.
+  Design.Contraction Design.DGraph Design.DenoteGraph Design.DenoteTie Design.DenoteSat Design.Loaded.
 Import ListNotations.
 
 Theorem C15_odd_cycle_reported : forall g m,
@@ -71,3 +71,17 @@ Theorem C15_over_iff_document_unsat : forall (p : pspec) (so : bool) (lay : layo
   (get_constraints p so = DOver <-> ~ doc_sat p so).
 Proof. exact over_iff_document_unsat. Qed.
 Print Assumptions C15_over_iff_document_unsat.
+
+(* strand layout, no per-case hypothesis: every loaded and seeded document *)
+Theorem C15_loaded_over_iff_document_unsat : forall (ls : list pline) (p : pspec) (lay : layout) (g : cgraph),
+  load_spec ls pspec0 = OK p -> seed p false = OK (lay, g) ->
+  (get_constraints p false = DOver <-> ~ doc_sat p false).
+Proof. exact loaded_over_iff_document_unsat. Qed.
+Print Assumptions C15_loaded_over_iff_document_unsat.
+
+(* whatever the document: an error of the loader / seeder, the report, or arrays - nothing else *)
+Theorem C15_design_arrays_cases : forall ls : list pline, (exists k, design_arrays ls false = DErr k) \/
+  exists p lay g, load_spec ls pspec0 = OK p /\ seed p false = OK (lay, g) /\
+    (design_arrays ls false = DOver \/ exists e w s, design_arrays ls false = DOk e w s).
+Proof. exact design_arrays_cases. Qed.
+Print Assumptions C15_design_arrays_cases.
